@@ -80,7 +80,7 @@ def xtermLegacyU (u : Uni) (key : Int) (mods : Nat) (shifted : Int) : Option Seq
   else if mods = 0 then
     (if u.isUpper key = true ∧ u.toLower key = 127 then none else some (.print [key]))
   else if mods = shiftBit then
-    if u.isUpper shifted = true ∧ u.toLower shifted = key ∧ validRune shifted = true then some (.print [shifted])
+    if u.isUpper shifted = true ∧ u.toLower shifted = key ∧ validRune shifted = true ∧ 0 < shifted then some (.print [shifted])
     else none
   else none
 
